@@ -147,7 +147,7 @@ def run_threadless(case: Dict[str, Any]) -> Dict[str, Any]:
             main.client.send(b'GET http://%s/x HTTP/1.1\r\nHos' % hp)
             rig.step(3)
             main.last_io = vc.now
-        elif scen == 'http-keepalive':
+        elif scen in ('http-keepalive', 'upstream-drain'):
             open_conn(main, False)
         else:
             open_conn(main, True)
@@ -166,7 +166,12 @@ def run_threadless(case: Dict[str, Any]) -> Dict[str, Any]:
             prog.append(('stay-open', K_THREADLESS))
             prog.append(('c-drain',))
             prog.append(('settle', 10))
-        for g in case['gaps']:
+        if scen == 'upstream-drain':
+            # the client has said everything (a large upload, all of it inside the proxy), nothing is owed to it, and the proxy
+            # spends the following timeouts feeding a slow origin: upstream-side activity only.  The client side is idle.
+            prog.append(('c-upload', case.get('upload', 12000000)))
+            prog.append(('settle-upload',))
+        for g in (case['gaps'] if scen != 'upstream-drain' else []):
             prog.append(('advance', g * T))
             prog.append(('stay-open', rng.choice([3, K_THREADLESS + 3])))
             if acts:
@@ -192,6 +197,8 @@ def run_threadless(case: Dict[str, Any]) -> Dict[str, Any]:
                 busy.oc.send(b'm')
                 busy.client.pump()
                 busy.oc.pump()
+            if state.get('slow_origin') and main.oc is not None:
+                main.oc.pump(2048)          # the origin takes two KiB per loop iteration
             if state['pending'] is False:
                 check_eof()
             while True:
@@ -231,6 +238,47 @@ def run_threadless(case: Dict[str, Any]) -> Dict[str, Any]:
                     state['answer_due'] = True
                     nresp = bytes(main.client.rx).count(b'HTTP/1.1 200 OK') + 1
                     state['await'] = lambda: bytes(main.client.rx).count(b'HTTP/1.1 200 OK') >= nresp and bytes(main.client.rx).endswith(b'ok')
+                    state['pc'] += 1
+                    continue
+                if kind == 'c-upload':
+                    if 'upload' not in state:
+                        body = G.coded(b'U', op[1])
+                        state['upload'] = b'POST http://%s/up HTTP/1.1\r\nHost: %s\r\nContent-Length: %d\r\n\r\n' % (hp, hp, len(body)) + body
+                        state['slow_origin'] = True
+                    n = main.client.send(state['upload'][:262144])
+                    if n > 0:
+                        state['upload'] = state['upload'][n:]
+                        main.last_io = vc.now
+                    if state['upload']:
+                        return
+                    state['pc'] += 1
+                    continue
+                if kind == 'settle-upload':
+                    # wait until the proxy has taken every byte the client sent (nothing left in the client->proxy socket):
+                    # from here on no client-side I/O can happen any more
+                    import fcntl, termios, struct
+                    def _backlog(w: Any) -> int:
+                        return sum(len(bytes(b)) for b in getattr(getattr(w.plugin, 'upstream', None), 'buffer', []) or [])
+                    mine = max(rig.work_objs(), key=_backlog, default=None)     # (a busy neighbour may share the worker)
+                    pending_in = 0
+                    if mine is not None:
+                        try:
+                            pending_in = struct.unpack('i', fcntl.ioctl(mine.work.connection.fileno(), termios.FIONREAD, b'\0\0\0\0'))[0]
+                        except OSError:
+                            pass
+                    state['wait'] += 1
+                    if pending_in > 0 or state['wait'] < 5:
+                        if state['wait'] > 20000:
+                            state['inconclusive'] = 'upload-never-consumed'
+                            raise _Done()
+                        return
+                    main.last_io = vc.now
+                    backlog = _backlog(mine) if mine is not None else 0
+                    if backlog <= 0:
+                        state['inconclusive'] = 'no-upstream-backlog'
+                        raise _Done()
+                    obs['upstream_backlog_bytes'] = backlog
+                    state['wait'] = 0
                     state['pc'] += 1
                     continue
                 if kind == 'o-flood':
@@ -273,7 +321,7 @@ def run_threadless(case: Dict[str, Any]) -> Dict[str, Any]:
                             return
                         state['pending'] = False
                     state['wait'] += 1
-                    if main.oc is not None and state['pending'] is False:
+                    if main.oc is not None and state['pending'] is False and not state.get('slow_origin'):
                         main.oc.pump()
                     aw = state.get('await')
                     if aw is not None:
@@ -606,7 +654,7 @@ EXTRA_HEADERS = {'none': b'', 'keep-alive': b'Connection: keep-alive\r\nKeep-Ali
                  'upgrade-h2c': b'Connection: Upgrade, HTTP2-Settings\r\nUpgrade: h2c\r\nHTTP2-Settings: AAMAAABkAAQAAP__\r\n',
                  'upgrade-ws': b'Connection: Upgrade\r\nUpgrade: websocket\r\nSec-WebSocket-Key: dGhlIHNhbXBsZSBub25jZQ==\r\nSec-WebSocket-Version: 13\r\n',
                  'expect': b'Expect: 100-continue\r\n', 'te': b'TE: trailers\r\nConnection: TE\r\n'}
-SCEN = ['silent', 'partial-request', 'http-keepalive', 'tunnel-c2o', 'tunnel-o2c', 'tunnel-both', 'pending-output']
+SCEN = ['silent', 'partial-request', 'http-keepalive', 'tunnel-c2o', 'tunnel-o2c', 'tunnel-both', 'pending-output', 'upstream-drain']
 
 
 def cases(tier: str, seed: int):
@@ -614,7 +662,7 @@ def cases(tier: str, seed: int):
     n = 420 if tier == 'quick' else 6000
     for i in range(n):
         scen = SCEN[i % len(SCEN)]
-        rigk = 'thread' if (i // len(SCEN)) % 4 == 3 else 'step'
+        rigk = 'thread' if (i // len(SCEN)) % 4 == 3 and scen != 'upstream-drain' else 'step'
         T = rng.choice([1, 1, 5, 10, 3600])
         ngaps = rng.choice([0, 1, 2, 4]) if scen not in ('silent',) else 0
         gaps = [round(rng.choice([0.1, 0.5, 0.9, 0.99, 0.999]), 3) for _ in range(ngaps)]
